@@ -54,3 +54,41 @@ Lemma lexer_digits_bijection :
   map (fun i => assoc_N (2534 + i) lexer_digits) [0;1;2;3;4;5;6;7;8;9]
   = map Some [0;1;2;3;4;5;6;7;8;9]%Z /\ length lexer_digits = 10%nat.
 Proof. vm_compute. split; reflexivity. Qed.
+
+(* no operator or keyword of the tables is the string or end-marker kind *)
+Definition plain_kind (k : tkind) : bool := match k with TStr _ | TEOT => false | _ => true end.
+Lemma tables_plain_kinds :
+  forallb (fun e => plain_kind (snd e)) single_ops && forallb (fun e => plain_kind (snd (fst (snd e))) && plain_kind (snd (snd e))) double_ops &&
+  forallb (fun e => plain_kind (snd e)) keywords = true.
+Proof. vm_compute. reflexivity. Qed.
+
+Lemma plain_kind_prop k : plain_kind k = true -> match k with TStr _ => False | TEOT => False | _ => True end.
+Proof. destruct k; simpl; intros H; try exact I; discriminate H. Qed.
+
+Lemma tables_plain_kinds_split :
+  forallb (fun e : N * tkind => plain_kind (snd e)) single_ops = true /\
+  forallb (fun e : N * (N * tkind * tkind) => plain_kind (snd (fst (snd e))) && plain_kind (snd (snd e))) double_ops = true /\
+  forallb (fun e : text * tkind => plain_kind (snd e)) keywords = true.
+Proof.
+  pose proof tables_plain_kinds as T. apply andb_true_iff in T as [T T3]. apply andb_true_iff in T as [T1 T2]. auto.
+Qed.
+
+Lemma single_ops_not_string c k : assoc_N c single_ops = Some k -> match k with TStr _ => False | _ => True end.
+Proof.
+  intros H. apply assoc_N_In in H. destruct tables_plain_kinds_split as (T & _ & _).
+  rewrite forallb_forall in T. specialize (T _ H). simpl in T. destruct k; simpl in T; try exact I; discriminate T.
+Qed.
+
+Lemma double_ops_not_string c d k2 k1 : assoc_N c double_ops = Some (d, k2, k1) ->
+  match k2 with TStr _ => False | _ => True end /\ match k1 with TStr _ => False | _ => True end.
+Proof.
+  intros H. apply assoc_N_In in H. destruct tables_plain_kinds_split as (_ & T & _).
+  rewrite forallb_forall in T. specialize (T _ H). simpl in T. apply andb_true_iff in T as [H2 H1].
+  split; [destruct k2|destruct k1]; simpl in *; try exact I; discriminate.
+Qed.
+
+Lemma keywords_not_string w k : assoc_text w keywords = Some k -> match k with TStr _ => False | TEOT => False | _ => True end.
+Proof.
+  intros H. apply assoc_text_In in H. destruct tables_plain_kinds_split as (_ & _ & T).
+  rewrite forallb_forall in T. specialize (T _ H). simpl in T. apply plain_kind_prop. exact T.
+Qed.
